@@ -6,7 +6,7 @@ from . import common
 
 
 def _scripts(n, seed, depth=(1, 2, 2, 3), multi=True, kinds=None, schemas=("sa", "sb")):
-    g = sqlgen.Gen(random.Random(seed), schemas=schemas, alias_p=0.5)
+    g = sqlgen.Gen(random.Random(seed), schemas=schemas, alias_p=0.5, scalar_p=0.12)
     rnd = random.Random(seed + 1)
     kinds = kinds or ["insert", "insert", "insert_cols", "ctas", "create_view", "bare", "update_from", "merge", "with_insert", "insert_values", "create_like", "delete"]
     out = []
